@@ -118,6 +118,9 @@ func init() {
 				mk(`sum by (l) (a)`, w, false, 2), mk(`histogram_quantile(0.5, a)`, core.Instant(45000), false, 0),
 				mk(`a{l="0"} + a`, w, false, 0), mk(`sum(a{m="1"}) / sum(a)`, w, false, 0),
 				mk(`sum by (l) (sum by (l, m) (a))`, core.Range(0, 15000, 45), false, 0), mk(`max(-sum by (l) (rate(a[1m])))`, core.Range(0, 15000, 45), false, 0),
+				// remote parts answered by the Prometheus fallback of the remote engines, next to
+				// other Prometheus evaluations (its point slices are pooled process-wide)
+				mk(`sum by (l) (round(a))`, w, true, 2), mk(`round(a)`, w, true, 2), mk(`max by (l) (round(rate(a[1m])))`, core.Range(0, 15000, 45), true, 2), mk(`round(b)`, w, true, 0),
 				mk(`histogram_quantile(0.5, h_bucket)`, w, false, 0), mk(`histogram_quantile(0.9, rate(h_bucket[1m]))`, w, false, 0))
 		}
 		// every plan shape of the fault checks, once
